@@ -235,26 +235,24 @@ func decodePointsCompressed(d *decoder, level int, target []Point) {
 		target[i] = Point{facePiQitoXYZ(iter.curFace, pi, qi, level)}
 	}
 
-	numOffCenter := int(d.readUvarint())
+	numOffCenter := d.readUvarint()
 	if d.err != nil {
 		return
 	}
-	if numOffCenter > len(target) {
+	if numOffCenter > uint64(len(target)) {
 		d.err = fmt.Errorf("numOffCenter = %d, should be at most len(target) = %d", numOffCenter, len(target))
 		return
 	}
-	for i := 0; i < numOffCenter; i++ {
-		idx := int(d.readUvarint())
+	for i := uint64(0); i < numOffCenter; i++ {
+		idx := d.readUvarint()
 		if d.err != nil {
 			return
 		}
-		if idx >= len(target) {
+		if idx >= uint64(len(target)) {
 			d.err = fmt.Errorf("off center index = %d, should be < len(target) = %d", idx, len(target))
 			return
 		}
-		target[idx].X = d.readFloat64()
-		target[idx].Y = d.readFloat64()
-		target[idx].Z = d.readFloat64()
+		target[idx] = d.readPoint()
 	}
 }
 
